@@ -132,6 +132,75 @@ def consumer_sites(ctx, module, func):
     return fi, loops, sites
 
 
+def consumer_inplace_sites(ctx, module, func):
+    """In-place writes into an array held by the record being iterated (directly, or through a local name bound to one of its attributes or to a view of it):
+    the copy FitInfoFile hands out is shallow and keep() leaves views, so such a write lands in the caller's own array."""
+    from ..effects import INPLACE_METHODS
+    repo = ctx.repo
+    fi = ctx.fn(repo.func(module, func))
+    readers = [t.id for t, v, st in stores(fi.node) if isinstance(t, ast.Name) and isinstance(v, ast.Call) and is_call_to(v, 'FitInfoFile')]
+    out = []
+    for lp in [n for n in walk_local(fi.node) if isinstance(n, ast.For) and isinstance(n.iter, ast.Name) and n.iter.id in readers and isinstance(n.target, ast.Name)]:
+        x = lp.target.id
+
+        def is_view_of_record(e, aliases):
+            # x.attr, x.attr[...] (basic index), alias, alias[...]
+            while isinstance(e, ast.Subscript):
+                if isinstance(e.slice, (ast.List, ast.ListComp, ast.Compare)):
+                    return False          # fancy / boolean index: a copy
+                e = e.value
+            if isinstance(e, ast.Name):
+                return e.id in aliases
+            return isinstance(e, ast.Attribute) and isinstance(e.value, ast.Name) and e.value.id == x
+        def expr_sites(e, aliases):
+            for n in ast.walk(e):
+                if isinstance(n, ast.Call) and isinstance(n.func, ast.Attribute) and n.func.attr in INPLACE_METHODS and is_view_of_record(n.func.value, aliases) \
+                        and not (isinstance(n.func.value, ast.Name) and n.func.value.id == x):
+                    out.append((n, up(n)))
+                elif isinstance(n, ast.Call):
+                    for k in n.keywords:
+                        if k.arg == 'out' and is_view_of_record(k.value, aliases):
+                            out.append((n, up(n)))
+
+        def flow(body, aliases):
+            """forward may-alias pass in source order: a local is an alias from the statement that binds it to a view of the record until it is rebound to something else"""
+            for st in body:
+                if isinstance(st, ast.Assign):
+                    expr_sites(st.value, aliases)
+                    for t in st.targets:
+                        if isinstance(t, ast.Subscript) and is_view_of_record(t.value, aliases):
+                            out.append((st, up(st)))
+                        elif isinstance(t, ast.Name):
+                            (aliases.add if is_view_of_record(st.value, aliases) else aliases.discard)(t.id)
+                elif isinstance(st, ast.AugAssign):
+                    expr_sites(st.value, aliases)
+                    if is_view_of_record(st.target, aliases) and not isinstance(st.target, ast.Attribute):
+                        out.append((st, up(st)))
+                elif isinstance(st, ast.If):
+                    expr_sites(st.test, aliases)
+                    a1, a2 = set(aliases), set(aliases)
+                    flow(st.body, a1); flow(st.orelse, a2)
+                    aliases.clear(); aliases.update(a1 | a2)
+                elif isinstance(st, (ast.For, ast.While)):
+                    for _ in range(2):
+                        flow(st.body, aliases)
+                    flow(st.orelse, aliases)
+                elif isinstance(st, ast.With):
+                    flow(st.body, aliases)
+                elif isinstance(st, ast.Try):
+                    flow(st.body, aliases)
+                    for h_ in st.handlers:
+                        flow(h_.body, aliases)
+                    flow(st.orelse, aliases); flow(st.finalbody, aliases)
+                elif isinstance(st, (ast.Expr, ast.Return)) and st.value is not None:
+                    expr_sites(st.value, aliases)
+        n0 = len(out)
+        flow(lp.body, set())
+        seen_ = set()
+        out[n0:] = [o for o in out[n0:] if not (id(o[0]) in seen_ or seen_.add(id(o[0])))]
+    return fi, out
+
+
 def check_ownership(ctx, only=None, rule='EFF-2'):
     # what iteration over in-memory results hands out is decided by interpreting FitInfoFile (recfile.py); the syntactic classification of the
     # yield statements is the fall-back when the interpretation has no verdict
@@ -163,6 +232,12 @@ def check_ownership(ctx, only=None, rule='EFF-2'):
     for module, func in POSTPROC:
         if only and func not in only:
             continue
+        fi_, ips = consumer_inplace_sites(ctx, module, func)
+        for node, text in ips:
+            ctx.violation(rule, '%s: in-place write into an array of the record' % func, where(fi_, node), '%s rewrites an array the record shares with the result the caller passed in '
+                          '(iteration hands out a shallow copy and keep() leaves views): the caller\'s results are changed' % text[:80], 'inplace-on-record')
+        if not ips:
+            ctx.ok(rule, '%s writes into no array of the record' % func, where(fi_), 'no in-place store, augmented assignment, in-place method or out= reaches an attribute array of the iterated record')
         fi, loops, sites = consumer_sites(ctx, module, func)
         ctx.analysed['call_sites'] += len(sites)
         if not sites:
